@@ -904,6 +904,7 @@ impl<T: RecognizerReadable> RecognizerReadable for Option<T> {
 
 pub struct EmptyBodyRecognizer<T> {
     seen_start: bool,
+    seen_extant: bool,
     _type: PhantomData<fn() -> Option<T>>,
 }
 
@@ -911,6 +912,7 @@ impl<T> Default for EmptyBodyRecognizer<T> {
     fn default() -> Self {
         EmptyBodyRecognizer {
             seen_start: false,
+            seen_extant: false,
             _type: PhantomData,
         }
     }
@@ -923,6 +925,11 @@ impl<T> Recognizer for EmptyBodyRecognizer<T> {
         if self.seen_start {
             if matches!(input, ReadEvent::EndRecord) {
                 Some(Ok(None))
+            } else if !self.seen_extant && matches!(input, ReadEvent::Extant) {
+                // An absent value delegated to as the body of a record is written as a single
+                // extant item.
+                self.seen_extant = true;
+                None
             } else {
                 Some(Err(input.kind_error(ExpectedEvent::EndOfRecord)))
             }
@@ -936,6 +943,7 @@ impl<T> Recognizer for EmptyBodyRecognizer<T> {
 
     fn reset(&mut self) {
         self.seen_start = false;
+        self.seen_extant = false;
     }
 }
 
